@@ -356,6 +356,20 @@ Definition lhs_expr (l : lhs) : option expr :=
   | LTmp _ => None
   end.
 
+(* signal := expression, both already typed (L3 struct rule, then the L1 rule) *)
+Definition assign_sig (chk : nat -> bool) (rl r : typed) : option (list wnode) :=
+  let L := fst rl in let R := fst r in
+  match astr L, astr R with
+  | Some x, Some y => if Nat.eqb x y && (aw L =? aw R) then Some (flat rl ++ flat r) else None   (* same bitstruct *)
+  | Some _, None | None, Some _ => None          (* struct <-> vector of equal width: not modelled *)
+  | None, None =>
+      let r' := if negb (aex R) && negb (aw R =? aw L) then enforce (Some (aw L)) r else r in
+      if negb (aw (fst r') =? aw L) then None else
+      if chk 1%nat && negb (aex R) && (aw L <? aw R) then None else                 (* (S1) *)
+      if negb (aex R) && negb (aw R =? aw L) && negb (enforce_ok chk (Some (aw L)) r) then None else
+      Some (flat rl ++ flat r')
+  end.
+
 (* _visit_Assign_single_target (L3 -> L2 -> L1) *)
 Definition tc_assign (chk : nat -> bool) (E : tenv) (l : lhs) (e : expr) : option (tenv * list wnode) :=
   match tc chk E e with
@@ -379,18 +393,7 @@ Definition tc_assign (chk : nat -> bool) (E : tenv) (l : lhs) (e : expr) : optio
           | Some le =>
               match tc chk E le with
               | None => None
-              | Some rl =>
-                  let L := fst rl in
-                  match astr L, astr R with
-                  | Some x, Some y => if Nat.eqb x y && (aw L =? aw R) then Some (E, flat rl ++ flat r) else None   (* same bitstruct *)
-                  | Some _, None | None, Some _ => None          (* struct <-> vector of equal width: not modelled *)
-                  | None, None =>
-                      let r' := if negb (aex R) && negb (aw R =? aw L) then enforce (Some (aw L)) r else r in
-                      if negb (aw (fst r') =? aw L) then None else
-                      if chk 1%nat && negb (aex R) && (aw L <? aw R) then None else                 (* (S1) *)
-                      if negb (aex R) && negb (aw R =? aw L) && negb (enforce_ok chk (Some (aw L)) r) then None else
-                      Some (E, flat rl ++ flat r')
-                  end
+              | Some rl => match assign_sig chk rl r with Some ns => Some (E, ns) | None => None end
               end
           end
       end
